@@ -221,7 +221,7 @@ func (p *lifeProc) ask(line string) string {
 	select {
 	case s := <-p.send(line):
 		return s
-	case <-time.After(30 * time.Second):
+	case <-time.After(120 * time.Second):
 		return "timeout"
 	}
 }
@@ -391,7 +391,7 @@ func runLockLifeProcs(hist, sa, ua string, maxWait time.Duration) lifeResult {
 		case sRes = <-sCh:
 			sFinished = true
 		default:
-			if time.Since(t0) > 20*time.Second {
+			if time.Since(t0) > 120*time.Second {
 				broken = true
 				return lifeResult{out: "timeout s"}
 			}
@@ -439,7 +439,7 @@ func runLockLifeProcs(hist, sa, ua string, maxWait time.Duration) lifeResult {
 		res.uFinished = uFinished
 		os.WriteFile(gate+".go", nil, 0o600)
 	}
-	deadline := time.After(30 * time.Second)
+	deadline := time.After(120 * time.Second)
 	if !sFinished {
 		select {
 		case sRes = <-sCh:
